@@ -17,13 +17,13 @@ cd $M/verif && ./check --build || { echo "build failed"; exit 2; }
 out=/verif/seeded/MATRIX.tsv
 # ONLY=<regex>: run only the patches whose path matches and replace their lines in the table
 if [ -n "$ONLY" ] && [ -f $out ]; then
-  grep -Ev "$ONLY" $out > $out.tmp; mv $out.tmp $out
+  grep -Ev -e "$ONLY" $out > $out.tmp; mv $out.tmp $out
 else
   printf "patch\tchecks\tresult\n" > $out
 fi
 run() { # patch, checks...
   p=$1; shift
-  if [ -n "$ONLY" ] && ! echo "$p" | grep -Eq "$ONLY"; then return; fi
+  if [ -n "$ONLY" ] && ! echo "$p" | grep -Eq -e "$ONLY"; then return; fi
   git -C $M/repo checkout -q -- . ; 
   if ! git -C $M/repo apply "$p" 2>/dev/null; then printf "%s\t-\tDOES-NOT-APPLY\n" "$p" >> $out; return; fi
   for c in "$@"; do
@@ -51,7 +51,7 @@ for p in /verif/mutants/*.patch; do
   n=$(basename $p); 
   case $n in
     F01*) c="C04 C05 C01 C02";; F02*) c="C02 C01";; F03*) c="C10";; F04*) c="C12";; F05*) c="C13";; F06*) c="C14";; F07*) c="C15";; F08*) c="C15 C06";;
-    F09*) c="C16";; F11*) c="C17";; F12*) c="C17 C01 C07";; F13*) c="C18 C01";; F14*) c="C19";; M06*) c="C06";; *) c="";;
+    F09*) c="C16";; F11*) c="C17";; F12*) c="C17 C01 C07";; F13*) c="C18 C01";; F14*) c="C19";; F15*) c="C02 C01";; M06*) c="C06";; *) c="";;
   esac
   [ -n "$c" ] && run $p $c
 done
